@@ -8,10 +8,12 @@
       prints) and a text Atoi rejects: every error goyang reports for a statement of a named file.  ([uniform k] is
       the auxiliary notion positioned is defined with.)
    3. The key (file, line, col, text) a positioned error is ordered by, numbers compared as numbers.
-   4. Order-independence of folds: the equivalences used for `range` over a Go map in the resolver model. *)
+   4. Order-independence of folds: the equivalences used for `range` over a Go map in the resolver model.
+   5. Modules asked for by NAME and found through the search path (Model/File.v): which file a name denotes. *)
 From Coq Require Import List NArith ZArith Bool Permutation Sorted.
 From GY Require Import Model.ErrorSort.
 From GY Require Model.Schema.
+From GY Require Base.Outcome Model.Registry Model.File.
 Import ListNotations.
 Local Open Scope N_scope.
 
@@ -123,3 +125,20 @@ Definition F0_of (SC : Schema.schema) (ic : bool) : Schema.forest :=
       (filter (fun x => negb (Schema.is_sub (fst x))) (map (fun m => (m, Schema.module_entry SC ic m)) SC)).
 Definition P0_of (SC : Schema.schema) : Schema.pendings :=
   map (fun m => (Schema.m_name m, Schema.module_augs SC m)) SC.
+
+(* ------------------------------------------------------------------ modules found through the search path *)
+(* ms.Path as the harness sets it up: directories below one root, given by their components; (dir, true) is the
+   entry "dir/..." (the whole tree below dir is walked) *)
+Definition spath := list (list Registry.str * bool).
+
+(* Modules.findFile(name) for a name without '/', in a process whose current directory holds no file at all.  The
+   search path is read, never written: findFile calls addDir only for a file it can open as named, i.e. in the
+   current directory (location 0 of File.found). *)
+Definition lookup_fs (root : File.entry) (path : spath) (name : Registry.str) : Outcome.outcome File.found :=
+  File.findFile (File.Dir [] [])
+                (map (fun pd => (File.resolve (File.readDirAll root) (fst pd), snd pd)) path) name.
+
+(* a sequence of requests (Read by name, or the on-demand Read of an import/include) and their answers *)
+Definition lookups (root : File.entry) (path : spath) (names : list Registry.str)
+  : list (Registry.str * Outcome.outcome File.found) :=
+  map (fun n => (n, lookup_fs root path n)) names.
